@@ -134,6 +134,8 @@ type World struct {
 	// FromBondShort accumulates, per known finding C04/F1, how much less than the recorded fee
 	// fee-from-stake payments actually moved into the dispute account.
 	FromBondShort math.Int
+	// SnapSeen: selector -> last (reporter, time) whose stake snapshot included it (C10).
+	SnapSeen map[string]snapSeen
 }
 
 // BlockPhases are module balances sampled after EndBlocker and after BeginBlocker.
